@@ -1,0 +1,34 @@
+//go:build verif
+
+// Machine-checked contracts for package types (comment-only, build tag `verif`).
+package types
+
+//@ recdef arity_sum(bits []int, k int) int = ite(k <= 0, 0, arity_sum(bits, k - 1) + bits[k-1])
+//@ def params_small(p) = p.DegreeBits <= 64 && p.Config.RateBits <= 64 && p.Config.CapHeight <= 64 && len(p.ReductionArityBits) <= 64 && forall(k, 0, len(p.ReductionArityBits), p.ReductionArityBits[k] <= 64)
+
+//@ func (p *FriParams) TotalArities() (res int)
+//@   props C20
+//@   plain
+//@   requires params_small(p)
+//@   ensures res == arity_sum(p.ReductionArityBits, len(p.ReductionArityBits))
+//@   ensures 0 <= res && res <= 64 * len(p.ReductionArityBits)
+//@   loop 0 invariant -1 <= rangeindex && rangeindex < len(p.ReductionArityBits) && res == arity_sum(p.ReductionArityBits, rangeindex + 1) && 0 <= res && res <= 64 * (rangeindex + 1)
+
+//@ func (p *FriParams) LdeBits() (res int)
+//@   props C20
+//@   plain
+//@   requires params_small(p)
+//@   ensures res == p.DegreeBits + p.Config.RateBits
+
+//@ func (p *FriParams) FinalPolyBits() (res int)
+//@   props C20
+//@   plain
+//@   requires params_small(p)
+//@   ensures res == p.DegreeBits - arity_sum(p.ReductionArityBits, len(p.ReductionArityBits))
+
+//@ func (p *FriParams) FinalPolyLen() (res int)
+//@   props C20
+//@   plain
+//@   requires params_small(p)
+//@   ensures 0 <= p.DegreeBits - arity_sum(p.ReductionArityBits, len(p.ReductionArityBits))
+//@   ensures res == pow2(p.DegreeBits - arity_sum(p.ReductionArityBits, len(p.ReductionArityBits)))
